@@ -102,7 +102,10 @@ Print Assumptions C04_with_norestore_leaks.
    documented semantics assigns to a function body under context C is an outcome
    of the compiled body started with `__ctx__` = C — same returned value, same
    variables, same store, and `__ctx__` = C again on normal completion.
-   Partial: the error outcomes (RErr) of the source semantics are not covered. *)
+   Partial: the error outcomes (RErr) of the source semantics are not covered — the
+   converse fails for ill-typed programs only: `with 3: pass` is a TypeError in Sem.v
+   but completes in the compiled code, because the emitted code does not check that
+   the `with` operand is a Context until an operation uses it. *)
 Theorem C04_compile_correct_partial : forall N P n s mu C b o mu',
   exec_block N P n s mu C b = ROk (o, mu') ->
   exists po, pyrel_block N P (init_pstate s C) mu (fst (compile_block O b)) po mu' /\ sim_out C o po.
